@@ -47,3 +47,7 @@ Definition py_stitch (line ms reps : pyval) : res :=
 (* dict.items() / bidict.items(): the (key, value) pairs in insertion order *)
 Definition py_items (v : pyval) : res :=
   match v with VDict d | VBidict d => Normal (VList (map (fun kv => VTuple [fst kv; snd kv]) d)) | _ => Exc AttributeError end.
+
+(* a set represented by the list of its elements (membership is all that may be asked of it): union is concatenation *)
+Definition py_set_union (a b : pyval) : res :=
+  match a, b with VList x, VList y => Normal (VList (x ++ y)) | _, _ => Exc TypeError end.
